@@ -1,3 +1,4 @@
 pub mod client;
 pub mod inproc;
 pub mod proc;
+pub mod sched;
